@@ -372,6 +372,8 @@ fn update_function_arg_info(
     } else {
         key.iter_args().collect()
     };
+    // one slot per declared parameter, also when two parameters share a name
+    let nargs = entries.len();
     for (i, (name, default_val)) in entries.into_iter().enumerate() {
         symbol_table.extend_declaration(name.v.clone(), Declaration::Var(name.node()));
         arg_indices.insert(name.v.clone());
@@ -384,7 +386,6 @@ fn update_function_arg_info(
             }
         }
     }
-    let nargs = required_args.len() + default_args.len();
     let func_arg_info = FuncArgDetails {
         symbol_table,
         arg_indices,
